@@ -63,10 +63,31 @@ fn write_dimacs_t<L: flussab_cnf::Dimacs>(doc: &DimacsDoc, w: &mut DeferredWrite
     }
 }
 
+thread_local! {
+    /// bytes already sitting in the writer's buffer when a document is written (so that the buffer
+    /// boundary falls at every position of a document, not only 16384 bytes into it)
+    static PREFILL: std::cell::Cell<usize> = const { std::cell::Cell::new(0) };
+}
+
+fn prefill(w: &mut DeferredWriter) {
+    let n = PREFILL.with(|p| p.get());
+    if n > 0 {
+        w.write_all_defer_err(&vec![b'#'; n]);
+    }
+}
+
+fn strip_prefill(mut out: Vec<u8>) -> Vec<u8> {
+    let n = PREFILL.with(|p| p.get());
+    assert!(out.len() >= n && out[..n].iter().all(|&c| c == b'#'), "harness: prefill not found in front of the written document");
+    out.drain(..n);
+    out
+}
+
 fn write_dimacs(doc: &DimacsDoc, lt: u8) -> Vec<u8> {
     let mut out = vec![];
     {
         let mut w = DeferredWriter::from_write(&mut out);
+        prefill(&mut w);
         match lt {
             0 => write_dimacs_t::<i8>(doc, &mut w),
             1 => write_dimacs_t::<i16>(doc, &mut w),
@@ -76,7 +97,7 @@ fn write_dimacs(doc: &DimacsDoc, lt: u8) -> Vec<u8> {
         }
         let _ = w.flush();
     }
-    out
+    strip_prefill(out)
 }
 
 fn sym_target(k: u8, i: u64) -> SymbolTarget {
@@ -178,6 +199,7 @@ fn write_aiger_t<L: flussab_aiger::Lit>(doc: &AigerDoc, which: u8, swap: bool) -
     let mut out = vec![];
     {
         let mut dw = DeferredWriter::from_write(&mut out);
+        prefill(&mut dw);
         match which {
             0 => {
                 let aig = build_aig::<L>(doc);
@@ -203,7 +225,7 @@ fn write_aiger_t<L: flussab_aiger::Lit>(doc: &AigerDoc, which: u8, swap: bool) -
             }
         }
     }
-    out
+    strip_prefill(out)
 }
 
 fn write_aiger(doc: &AigerDoc, lt: u8, which: u8, swap: bool) -> Vec<u8> {
@@ -296,6 +318,7 @@ fn write_btor(doc: &BtorDoc, rep: &mut Report) -> (Vec<u8>, Vec<String>, Vec<u8>
     let mut shown: Vec<u8> = vec![];
     {
         let mut w = DeferredWriter::from_write(&mut out);
+        prefill(&mut w);
         for line in &doc.lines {
             match line {
                 BLine::Comment(c) => {
@@ -428,7 +451,7 @@ fn write_btor(doc: &BtorDoc, rep: &mut Report) -> (Vec<u8>, Vec<String>, Vec<u8>
         }
         let _ = w.flush();
     }
-    (out, expected, shown)
+    (strip_prefill(out), expected, shown)
 }
 
 // ------------------------------------------------------------------------------ direction 2: re-writing parsed values
@@ -569,7 +592,23 @@ impl C03 {
             )
         });
         rep.inc("roundtrips");
-        let ok = tr.outcome == Outcome::End && tr.items == expected;
+        let mut ok = tr.outcome == Outcome::End && tr.items == expected;
+        let mut tr = tr;
+        let mut how = "one read, Parser::new, default chunk".to_string();
+        // a quarter of the documents is parsed back a second time through another constructor / schedule
+        let h = H::new().b(written).u(cfg.code()).get();
+        if ok && h % 4 == 0 {
+            let mut r2 = Rng::new(h);
+            let ctor = drive::random_ctor(&mut r2);
+            let policy = crate::c01::random_policy(&mut r2, written.len());
+            let tr2 = sut(|| drive::run_collect(cfg, ctor, Src::from_bytes(written, policy.clone(), h)));
+            rep.inc("roundtrips_through_another_constructor_or_schedule");
+            if !(tr2.outcome == Outcome::End && tr2.items == expected) {
+                ok = false;
+                tr = tr2;
+                how = format!("{}, {}", policy.describe(), ctor.describe());
+            }
+        }
         if ok {
             if nontrivial {
                 rep.nontrivial(H::new().b(written).u(cfg.code()).get());
@@ -595,6 +634,7 @@ impl C03 {
             J::obj()
                 .set("direction", J::s(what))
                 .set("parser", J::s(cfg.describe()))
+                .set("parsed_back_with", J::s(how))
                 .set("written", J::bytes(written))
                 .set("outcome", J::s(tr.outcome.describe()))
                 .set("items_written", J::u(expected.len()))
@@ -628,6 +668,18 @@ impl Monitor for C03 {
             1..=4 => 200,
             _ => 12,
         };
+        // direction 1: how full the writer's buffer already is when the document is written
+        let cap = 16384usize;
+        let pre = match rng.below(6) {
+            0 | 1 | 2 => 0,
+            3 => cap - 1 - rng.usize(60),
+            4 => cap - rng.usize(cap.min(400)),
+            _ => rng.usize(cap + 200),
+        };
+        PREFILL.with(|p| p.set(if (idx / 6) % 3 != 2 { pre } else { 0 }));
+        if pre > 0 && (idx / 6) % 3 != 2 {
+            rep.inc("choice:writer_buffer_partly_full_before_the_document");
+        }
         if (idx / 6) % 3 != 2 {
             // ---------------- direction 1
             match pk {
